@@ -10,7 +10,6 @@ func ikeDecodeDecrypt(b []byte, h *message.IKEHeader, sa *security.IKESAKey, rol
 	return ike.DecodeDecrypt(b, h, sa, role)
 }
 
-
 // akaWire: a well-formed EAP-AKA' packet produced without the library, attributes in arbitrary order
 func (g *Gen) akaWire() []byte {
 	var attrs [][]byte
